@@ -319,6 +319,44 @@ func verifC10_leaf(k int) *verifC10_entry {
 	}
 }
 
+// verifC10_checkTree decodes a Tree blob and compares it with the directories
+// the reference expects for root: root first, every distinct directory exactly
+// once, parents before children, every referenced child present.
+func verifC10_checkTree(tree []byte, root *verifC10_entry, df digest.Function) {
+	rt.Assert(tree != nil, "the Tree of an output directory is stored in the CAS")
+	// decode the Tree: field 1 = root, field 2 = children, lengths < 128 in these shapes
+	var got [][]byte
+	for i := 0; i < len(tree); {
+		tag := tree[i]
+		l, shift, j := 0, uint(0), i+1
+		for ; ; j++ { // varint length
+			l |= int(tree[j]&0x7f) << shift
+			shift += 7
+			if tree[j]&0x80 == 0 {
+				break
+			}
+		}
+		hdr := j + 1 - i
+		if len(got) == 0 {
+			rt.Assert(tag == 0x0a, "the first directory of a Tree is its root")
+		} else {
+			rt.Assert(tag == 0x12, "all other directories of a Tree are children")
+		}
+		got = append(got, tree[i+hdr:i+hdr+l])
+		i += hdr + l
+	}
+	var want [][]byte
+	rootDigest := verifC10_expectedDirs(root, df, &want, map[string]bool{})
+	_ = rootDigest
+	rt.Assert(len(got) == len(want), "every distinct directory appears in the Tree exactly once (identical subdirectories are shared)")
+	rt.Assert(string(got[0]) == string(want[len(want)-1]), "the Tree starts with the root directory")
+	// every expected directory is present, and a parent precedes its children:
+	// expected order is children-first, the Tree must be its reverse
+	for i := range want {
+		rt.Assert(string(got[len(got)-1-i]) == string(want[i]), "parents precede their children in the Tree and every referenced child is present")
+	}
+}
+
 func verifHarness_C10_TreeShape() {
 	rt.Bound("directories_max", 4)
 	rt.MustCover("tree:identical-subdirectories", "tree:nested", "tree:flat")
@@ -350,42 +388,55 @@ func verifHarness_C10_TreeShape() {
 	var ar remoteexecution.ActionResult
 	uerr := oh.UploadOutputs(context.Background(), verifC10_dir{e: top, closed: &closed, opened: &opened}, cas, df, nil, &ar, false)
 	rt.Assert(uerr == nil && len(ar.OutputDirectories) == 1, "the output directory is reported")
-	tree := cas.blobs[ar.OutputDirectories[0].TreeDigest.Hash]
-	// decode the Tree: field 1 = root, field 2 = children, lengths < 128 in these shapes
-	var got [][]byte
-	for i := 0; i < len(tree); {
-		tag := tree[i]
-		l, shift, j := 0, uint(0), i+1
-		for ; ; j++ { // varint length
-			l |= int(tree[j]&0x7f) << shift
-			shift += 7
-			if tree[j]&0x80 == 0 {
-				break
-			}
-		}
-		hdr := j + 1 - i
-		if len(got) == 0 {
-			rt.Assert(tag == 0x0a, "the first directory of a Tree is its root")
-		} else {
-			rt.Assert(tag == 0x12, "all other directories of a Tree are children")
-		}
-		got = append(got, tree[i+hdr:i+hdr+l])
-		i += hdr + l
-	}
-	var want [][]byte
-	rootDigest := verifC10_expectedDirs(root, df, &want, map[string]bool{})
-	_ = rootDigest
-	rt.Assert(len(got) == len(want), "every distinct directory appears in the Tree exactly once (identical subdirectories are shared)")
+	verifC10_checkTree(cas.blobs[ar.OutputDirectories[0].TreeDigest.Hash], root, df)
 	if nsub == 2 && kinds[0] == kinds[1] && len(root.children["x"].children) == 1 {
 		rt.Cover("tree:identical-subdirectories")
 	}
-	rt.Assert(string(got[0]) == string(want[len(want)-1]), "the Tree starts with the root directory")
-	// every expected directory is present, and a parent precedes its children:
-	// expected order is children-first, the Tree must be its reverse
-	for i := range want {
-		rt.Assert(string(got[len(got)-1-i]) == string(want[i]), "parents precede their children in the Tree and every referenced child is present")
-	}
 	rt.Assert(ar.OutputDirectories[0].IsTopologicallySorted, "the Tree is declared topologically sorted")
+	rt.Assert(closed == opened, "every directory entered during the upload is closed again")
+}
+
+// Two declared output directories whose contents may share identical
+// directories: each Tree must be complete on its own.
+func verifHarness_C10_TwoOutputDirectories() {
+	rt.MustCover("tree2:identical-roots", "tree2:shared-subdirectory", "tree2:disjoint")
+	mk := func(i int) (*verifC10_entry, int, bool) {
+		d := &verifC10_entry{kind: filesystem.FileTypeDirectory, children: map[string]*verifC10_entry{}}
+		k := rt.Choose(2)
+		d.children["f"] = verifC10_leaf(k)
+		sub := rt.NondetBool("has the shared subdirectory")
+		if sub {
+			d.children["shared"] = &verifC10_entry{kind: filesystem.FileTypeDirectory, children: map[string]*verifC10_entry{"g": verifC10_leaf(0)}}
+		}
+		return d, k, sub
+	}
+	d1, k1, s1 := mk(0)
+	d2, k2, s2 := mk(1)
+	if k1 == k2 && s1 == s2 {
+		rt.Cover("tree2:identical-roots")
+	} else if s1 && s2 {
+		rt.Cover("tree2:shared-subdirectory")
+	} else if !s1 && !s2 {
+		rt.Cover("tree2:disjoint")
+	}
+	top := &verifC10_entry{kind: filesystem.FileTypeDirectory, children: map[string]*verifC10_entry{"out1": d1, "out2": d2}}
+	oh, _ := NewOutputHierarchy(&remoteexecution.Command{OutputPaths: []string{"out1", "out2"}})
+	closed, opened := 0, 0
+	cas := &verifC10_cas{blobs: map[string][]byte{}}
+	df := digest.MustNewFunction("", remoteexecution.DigestFunction_SHA256)
+	var ar remoteexecution.ActionResult
+	uerr := oh.UploadOutputs(context.Background(), verifC10_dir{e: top, closed: &closed, opened: &opened}, cas, df, nil, &ar, false)
+	rt.Assert(uerr == nil && len(ar.OutputDirectories) == 2, "both output directories are reported")
+	for _, od := range ar.OutputDirectories {
+		root := d1
+		if od.Path == "out2" {
+			root = d2
+		} else {
+			rt.Assert(od.Path == "out1", "output directories are reported under their declared paths")
+		}
+		verifC10_checkTree(cas.blobs[od.TreeDigest.Hash], root, df)
+		rt.Assert(od.IsTopologicallySorted, "the Tree is declared topologically sorted")
+	}
 	rt.Assert(closed == opened, "every directory entered during the upload is closed again")
 }
 
